@@ -21,6 +21,9 @@ def build(flavour):
         sys.exit(2)
     return r.stdout.strip().split('\n')[-1]
 
+# a run that ends in a fatal signal or a sanitizer report counts against whichever check met it: every property implies that the call returns
+DEFAULT_ALSO = ['C05:fatal_signal*', 'C05:sanitizer*']
+
 def main():
     pid, tier = sys.argv[1], (sys.argv[2] if len(sys.argv) > 2 else os.environ.get('VERIF_TIER', 'quick'))
     spec = CHECKS[pid]
@@ -64,7 +67,7 @@ def main():
         for v in s['violations']:
             if v['prop'] == 'MACHINERY':
                 mach.append(v); continue
-            if v['prop'] not in props and not any(fnmatch.fnmatchcase('%s:%s' % (v['prop'], v['sig']), pat) for pat in spec.get('also', [])):
+            if v['prop'] not in props and not any(fnmatch.fnmatchcase('%s:%s' % (v['prop'], v['sig']), pat) for pat in spec.get('also', DEFAULT_ALSO)):
                 co_observed['%s:%s' % (v['prop'], v['sig'])] = co_observed.get('%s:%s' % (v['prop'], v['sig']), 0) + v['count']
                 continue
             kf = [f for f in known['findings'] if f['property'] == v['prop'] and fnmatch.fnmatchcase(v['sig'], f['sig'])]
